@@ -499,6 +499,11 @@ func verifModelBinaryWrite(w io.Writer, order binary.ByteOrder, data any) error 
 //  the list then shows whatever its bitmap held before; it is excluded here and handled by the callers that cleared it)
 //@ ensures err == nil && !(postingsOffset & FSTValEncodingMask == FSTValEncoding1Hit && (postingsOffset >> 31) & mask31Bits == 0) ==> plDocsIs(rv, docsAt(row(d.sb.mem), off(d.sb.mem), postingsOffset)) [C02,C08]
 //@ ensures err == nil && postingsOffset & FSTValEncodingMask == FSTValEncoding1Hit ==> rv.postings == old(rv.postings) && (old(rv.postings) != nil ==> bmSet(rv.postings) == old(bmSet(rv.postings))) [C02,C08]
+// the chunk size a general list decodes with is derived from the cardinality of the bitmap it has just loaded (the
+// writer derived it from the same number: C01/C09), not from whatever the bitmap held before the load
+//@ ensures err == nil && postingsOffset & FSTValEncodingMask != FSTValEncoding1Hit && d.sb.chunkMode == 1026 && sCard(bmSet(rv.postings)) >= 0 && d.sb.numDocs / (uint64(sCard(bmSet(rv.postings))) / 1024 + 1) != 0 ==> rv.chunkSize == d.sb.numDocs / (uint64(sCard(bmSet(rv.postings))) / 1024 + 1) [C01,C07,C09]
+//@ ensures err == nil && postingsOffset & FSTValEncodingMask != FSTValEncoding1Hit && d.sb.chunkMode == 1025 && sCard(bmSet(rv.postings)) > 1024 ==> rv.chunkSize == 1024 [C01,C07,C09]
+//@ ensures err == nil && postingsOffset & FSTValEncodingMask != FSTValEncoding1Hit && d.sb.chunkMode == 1025 && sCard(bmSet(rv.postings)) >= 0 && sCard(bmSet(rv.postings)) <= 1024 && d.sb.numDocs != 0 ==> rv.chunkSize == d.sb.numDocs [C01,C07,C09]
 //@ ensures rv.except == old(rv.except) && rv.sb == old(rv.sb)
 //@ ensures rv.postings == old(rv.postings) || (old(rv.postings) == nil && fresh(rv.postings))
 //@ modifies PostingsList.*[rv], alloc, new ghost bmSet, ghost bmSet[rv.postings], elems(any)
@@ -654,6 +659,9 @@ func lemma1HitDiscriminator(docNum, normBits uint64) {
 //@ wf requires forall j int :: {row(io.IncludeDocValues)[off(io.IncludeDocValues) + j]} len(io.IncludeDocValues) <= j && j < cap(io.IncludeDocValues) ==> !row(io.IncludeDocValues)[off(io.IncludeDocValues) + j]
 //@ loop 3 invariant io.IncludeDocValues == old(io.IncludeDocValues) && 0 <= $k && $k <= len(io.IncludeDocValues) [C03,C10]
 //@ loop 3 invariant forall j int :: {row(io.IncludeDocValues)[off(io.IncludeDocValues) + j]} (0 <= j && j < $k) || (len(io.IncludeDocValues) <= j && j < cap(io.IncludeDocValues)) ==> !row(io.IncludeDocValues)[off(io.IncludeDocValues) + j] [C03,C10]
+// the pooled postings bitmaps are emptied here (realloc hands them out again as they are)
+//@ loop 4 invariant 0 <= $k && io.Postings == old(io.Postings) && (forall j int :: {io.Postings[j]} 0 <= j && j < $k && j < len(io.Postings) ==> io.Postings[j] == old(io.Postings[j]) && (io.Postings[j] != nil ==> bmSet(io.Postings[j]) == sEmpty())) [C10]
+//@ ensures forall j int :: {old(io.Postings[j])} 0 <= j && j < old(len(io.Postings)) && old(io.Postings[j]) != nil ==> bmSet(old(io.Postings[j])) == sEmpty() [C10]
 //@ ensures clean(io)
 //@ modifies invertedIndexOpaque.*[io], ghost bmSet, elems(*), interimFreqNorm.*, interimLoc.*, maps
 //@ end
@@ -678,6 +686,9 @@ func lemma1HitDiscriminator(docNum, normBits uint64) {
 //@ thin
 //@ tags [C10]
 //@ ensures clean(so)
+// the pooled synonym bitmaps are emptied here (realloc hands them out again as they are)
+//@ loop 3 invariant 0 <= $k && so.Synonyms == old(so.Synonyms) && (forall j int :: {so.Synonyms[j]} 0 <= j && j < $k && j < len(so.Synonyms) ==> so.Synonyms[j] == old(so.Synonyms[j]) && (so.Synonyms[j] != nil ==> bm64Empty(so.Synonyms[j]))) [C10]
+//@ ensures forall j int :: {old(so.Synonyms[j])} 0 <= j && j < old(len(so.Synonyms)) && old(so.Synonyms[j]) != nil ==> bm64Empty(old(so.Synonyms[j])) [C10]
 //@ modifies synonymIndexOpaque.*[so], ghost bm64Empty, elems(*)
 //@ end
 
@@ -893,6 +904,13 @@ func lemma1HitDiscriminator(docNum, normBits uint64) {
 //@ wf requires itGeneral(i) ==> itWF(i) && itSubset(i)
 //@ requires itInv(i) [C07]
 //@ assert (*PostingsIterator).readFreqNormHasLocs#1 : i.normBits1Hit == 0 ==> itLockAt(i, docNum) [C07]
+// the hit object is recycled: when its record is read it carries this hit's number and nothing of the previous hit
+//@ assert (*PostingsIterator).readFreqNormHasLocs#1 : rv == addr(i.next) && rv.docNum == docNum && len(rv.locs) == 0 && base(rv.locs) == nil && rv.freq == 0 [C01,C07]
+// a hit's location block is decoded whenever locations were requested and the record says it has some - also for a hit
+// of frequency 0 (a field indexed without frequencies but with term vectors)
+//@ assert (*chunkedIntDecoder).readUvarint#1 : i.includeLocs && hasLocs && $d == i.locReader [C01,C07]
+//@ follows (*chunkedIntDecoder).readUvarint after (*PostingsIterator).readFreqNormHasLocs when i.includeLocs && $hasLocs [C01,C07]
+//@ assert (*PostingsIterator).readLocation#1 : $l == nextLoc && $i == i [C01,C07]
 //@ ensures err == nil ==> itInv(i) [C07]
 //@ ensures err == nil && p == nil && old(itGeneral(i)) ==> itDone(i) [C07]
 //@ end
@@ -2040,6 +2058,9 @@ func lemmaSynonymCodeRoundTrip(synonymID, docID uint32) {
 //@ thin
 //@ tags [C01]
 //@ loop 3 invariant 0 <= $k && $k <= len(tf.Locations) && len(locs) == entry(len(locs)) + $k [C01]
+// each location entry describes its own occurrence: position, offsets, and the field it belongs to - the field being
+// filled unless the occurrence names a source field of its own (composite fields)
+//@ loop 3 step prev(len(locs)) <= 0x3fffffffffffff && 0 <= fid && fid <= 65535 ==> locs[prev(len(locs))].pos == uint64(loc.Position) && locs[prev(len(locs))].start == uint64(loc.Start) && locs[prev(len(locs))].end == uint64(loc.End) && (loc.Field == "" ==> int(locs[prev(len(locs))].fieldID) == fid) [C01]
 // end of a document: the per-field scratch (accumulated lengths, merged token tables) is cleared for every field, whether
 // or not the document had tokens for it - what is left would be added to the next document's (or the next build's) norm
 //@ loop 4 invariant 0 <= i && (forall j int :: {io.reusableFieldLens[j]} 0 <= j && j < i && j < len(io.reusableFieldLens) && j < len(io.reusableFieldTFs) ==> io.reusableFieldLens[j] == 0 && io.reusableFieldTFs[j] == nil) [C01,C10]
